@@ -26,19 +26,21 @@
 
 namespace {
 
-struct Snap {
-    std::string ret;          // "true"/"false"/"threw"
+struct Snap {                 // SBuf copies share the parser's storage: taking a snapshot allocates nothing
+    int ret = -1;             // 0 false, 1 true, 2 threw, -1 parse() never called
     int stage = 0;
     int status = 0;
     int methodId = 0;
-    std::string methodImage;
-    std::string uri;
+    SBuf methodImage;
+    SBuf uri;
     int proto = 0, major = 0, minor = 0;
-    std::string mime;
-    std::string parsed;       // parsed_ (preserveParsed_ is on)
+    SBuf mime;
+    SBuf parsed;              // parsed_ (preserveParsed_ is on)
     bool hack = false;
-    std::string rest;         // parser.remaining() + undelivered input  (what the connection still holds)
-    std::string callerBuf;    // caller's inBuf after the sync (must be remaining())
+    SBuf buf;                 // parser.remaining()
+    std::string undelivered;  // input not yet handed to the caller (non-empty only if the parser finished on a prefix)
+    std::string rest() const { return std::string(buf.rawContent(), buf.length()) + undelivered; } // what the connection still holds
+    const char *retName() const { return ret == 1 ? "true" : ret == 0 ? "false" : ret == 2 ? "threw" : "none"; }
 };
 
 std::string str(const SBuf &b) { return std::string(b.rawContent(), b.length()); }
@@ -47,7 +49,7 @@ struct Run {
     Http1::RequestParser p{true};
     SBuf inBuf;
     size_t delivered = 0;
-    std::string ret = "none";
+    int ret = -1;
     uint64_t calls = 0;
 
     void feed(const std::string &s, size_t from, size_t to) {
@@ -57,15 +59,13 @@ struct Run {
         if (inBuf.isEmpty()) return; // parseRequests() only parses a non-empty buffer
         ++calls;
         try {
-            ret = p.parse(inBuf) ? "true" : "false";
-        } catch (const std::exception &e) {
-            ret = std::string("threw:") + e.what();
+            ret = p.parse(inBuf) ? 1 : 0;
         } catch (...) {
-            ret = "threw";
+            ret = 2;
         }
         inBuf = p.remaining();
     }
-    bool done() const { return !p.needsMoreData() || ret.compare(0, 5, "threw") == 0; }
+    bool done() const { return !p.needsMoreData() || ret == 2; }
 
     Snap snap(const std::string &s) const {
         Snap x;
@@ -73,24 +73,24 @@ struct Run {
         x.stage = (int)p.parsingStage_;
         x.status = (int)p.parseStatusCode;
         x.methodId = (int)p.method_.id();
-        x.methodImage = str(p.method_.image());
-        x.uri = str(p.uri_);
+        x.methodImage = p.method_.image();
+        x.uri = p.uri_;
         x.proto = (int)p.msgProtocol_.protocol; x.major = p.msgProtocol_.major; x.minor = p.msgProtocol_.minor;
-        x.mime = str(p.mimeHeaderBlock_);
-        x.parsed = str(p.parsed_);
+        x.mime = p.mimeHeaderBlock_;
+        x.parsed = p.parsed_;
         x.hack = p.hackExpectsMime_;
-        x.rest = str(p.buf_) + s.substr(delivered);
-        x.callerBuf = str(inBuf);
+        x.buf = p.buf_;
+        if (delivered < s.size()) x.undelivered = s.substr(delivered);
         return x;
     }
 };
 
 std::string show(const Snap &x)
 {
-    return "{ret=" + x.ret + " stage=" + std::to_string(x.stage) + " status=" + std::to_string(x.status) +
-           " method=" + std::to_string(x.methodId) + ":'" + V::esc(x.methodImage) + "' uri='" + V::esc(x.uri) + "' ver=" +
-           std::to_string(x.proto) + "/" + std::to_string(x.major) + "." + std::to_string(x.minor) + " mime='" + V::esc(x.mime) +
-           "' parsed='" + V::esc(x.parsed) + "' rest='" + V::esc(x.rest) + "'}";
+    return std::string("{ret=") + x.retName() + " stage=" + std::to_string(x.stage) + " status=" + std::to_string(x.status) +
+           " method=" + std::to_string(x.methodId) + ":'" + V::esc(str(x.methodImage)) + "' uri='" + V::esc(str(x.uri)) + "' ver=" +
+           std::to_string(x.proto) + "/" + std::to_string(x.major) + "." + std::to_string(x.minor) + " mime='" + V::esc(str(x.mime)) +
+           "' parsed='" + V::esc(str(x.parsed)) + "' rest='" + V::esc(x.rest()) + "'}";
 }
 
 // names of the members that differ ("" = equal)
@@ -108,11 +108,11 @@ std::string diff(const Snap &a, const Snap &b)
     add(a.hack != b.hack, "hack");
     // After a rejection ConnStateData::parseHttpRequest() discards the whole input buffer and nothing reads
     // parsed(): how many bytes a *rejecting* parser consumed is not observable, so it is not compared.
-    const bool bothRejected = a.ret == "false" && b.ret == "false" &&
+    const bool bothRejected = a.ret == 0 && b.ret == 0 &&
                               a.stage == (int)Http1::HTTP_PARSE_DONE && b.stage == (int)Http1::HTTP_PARSE_DONE;
     if (!bothRejected) {
         add(a.parsed != b.parsed, "parsed");
-        add(a.rest != b.rest, "rest");
+        add(a.undelivered.empty() && b.undelivered.empty() ? a.buf != b.buf : a.rest() != b.rest(), "rest");
     }
     return d;
 }
@@ -120,13 +120,13 @@ std::string diff(const Snap &a, const Snap &b)
 // outcome label in the property's terms
 std::string label(const Snap &x)
 {
-    if (x.ret.compare(0, 5, "threw") == 0) return "threw";
+    if (x.ret == 2) return "threw";
     if (x.stage != (int)Http1::HTTP_PARSE_DONE) {
         if (x.stage == (int)Http1::HTTP_PARSE_NONE) return "need-more:none";
         if (x.stage == (int)Http1::HTTP_PARSE_FIRST) return "need-more:first-line";
         return "need-more:mime";
     }
-    if (x.ret == "true") return x.major == 0 ? "accepted-0.x" : "accepted-1.x";
+    if (x.ret == 1) return x.major == 0 ? "accepted-0.x" : "accepted-1.x";
     return "rejected-" + std::to_string(x.status);
 }
 
@@ -202,7 +202,6 @@ void checkOne(const std::string &s, const Config1 &c, bool allSegs, std::string 
     nParses += a.calls;
     const Snap one = a.snap(s);
     klass = classOf(one, s);
-    if (one.callerBuf != str(a.p.remaining())) V::fail("caller buffer not synced");
 
     const size_t n = s.size();
     for (size_t k = 1; k < n; ++k) {
